@@ -406,7 +406,7 @@ type OblReport struct {
 	Trivial bool    `json:"trivial,omitempty"`
 }
 
-func discharge(results []*FuncResult, timeoutS int) []*OblReport {
+func discharge(results []*FuncResult, timeoutS int, shortFor map[string]bool) []*OblReport {
 	var wg sync.WaitGroup
 	var mu sync.Mutex
 	var reps []*OblReport
@@ -426,6 +426,10 @@ func discharge(results []*FuncResult, timeoutS int) []*OblReport {
 				rep.Solver = "syntactic"
 				o.Result = &SolveResult{Status: "unsat", Solver: "syntactic"}
 				continue
+			}
+			timeoutS := timeoutS
+			if shortFor[baseOblName(o.Name)] {
+				timeoutS = 3 // listed known finding: expected to stay undischarged
 			}
 			script := r.e.script(o, false)
 			o.Script = script
